@@ -33,6 +33,9 @@ type objRes struct {
 	Kind string                 `json:"kind"` // "Kind" or "<ns>/Kind"
 	Name string                 `json:"name"`
 	Ver  string                 `json:"ver,omitempty"` // version part of apiVersion when not the kind's default
+	// Sep (action level): this entry shares the chart template file of the previous entry, separated from it by this
+	// document separator line ("---", "--- ", "--- # note", "---\t", "crlf" = "---" in a file with CRLF line ends, "flow" = the document in JSON flow style on the separator line: "--- {...}")
+	Sep string `json:"sep,omitempty"`
 	Body map[string]interface{} `json:"body"`
 }
 
@@ -43,7 +46,7 @@ func (r objRes) Key() string {
 }
 
 // the API group and the default version of the kinds of this level
-var objGroup = map[string]string{"ConfigMap": "", "Secret": "", "Service": "", "ServiceAccount": "",
+var objGroup = map[string]string{"ConfigMap": "", "Secret": "", "Service": "", "ServiceAccount": "", "Pod": "",
 	"Deployment": "apps", "Widget": "unit-test.test.com"}
 var objDefaultVer = map[string]string{"Deployment": "v1", "Widget": "v1"}
 
@@ -84,6 +87,11 @@ type objStep struct {
 	Tgt      []objRes `json:"tgt,omitempty"`
 	Set      *objRes  `json:"set,omitempty"` // edit: store this object
 	Del      string   `json:"del,omitempty"` // edit: remove this key
+	// action level only: verb "recreate" (Tgt = the resources Client.update reported as updated) and verb "split"
+	// (a release manifest, the real splitter's documents, the number of objects the real decoder sees)
+	Text  string   `json:"text,omitempty"`
+	Docs  []string `json:"docs,omitempty"`
+	NDocs int      `json:"ndocs,omitempty"`
 }
 
 type objCase struct {
@@ -97,6 +105,7 @@ type objStepObs struct {
 	Objs    map[string]map[string]interface{} `json:"objs"`
 	Muts    []nsim.Mut                        `json:"muts,omitempty"`
 	Created []string                          `json:"created,omitempty"`
+	Updated []string                          `json:"updated,omitempty"`
 	PTypes  map[string][]string               `json:"patch_types,omitempty"`
 	Panic   string                            `json:"panic,omitempty"`
 }
@@ -422,6 +431,10 @@ func objCoq(c *objCase, o *objObs) string {
 	var steps, obs []string
 	for i, s := range c.Steps {
 		switch s.Verb {
+		case "recreate":
+			steps = append(steps, "ORecreate "+objCoqResList(s.Tgt))
+		case "split":
+			steps = append(steps, fmt.Sprintf("OSplit %s\n    %s %d", hx.CoqStr(s.Text), hx.CoqStrList(s.Docs), s.NDocs))
 		case "create":
 			steps = append(steps, "OCreate "+objCoqResList(s.Tgt))
 		case "delete":
